@@ -5,6 +5,7 @@
 // Every rank reads the same script; one scenario per line:
 //   S <id> <mode> <J> <G> <r0[,r1,...]> <seed> <maxus> C <c0> ... <c{J-1}>
 //     mode   skel   : pMPI::mpi_skel<ComputeWrap<Job>>::run(comm, false)            (include_boss = true)
+//            nobossL: as noboss, with the LAST rank of comm as the master-only rank
 //            noboss : the loop of test/mpi_dispatcher_test_nomaster.cpp with MPIMaster(comm, order, false):
 //                     rank 0 of comm runs only the master, all others only a worker (include_boss = false);
 //                     job order and the final map broadcast as in mpi_skel::run
@@ -79,9 +80,10 @@ static unsigned long long mix(unsigned long long x)
 }
 
 // include_boss = false: documented usage (test/mpi_dispatcher_test_nomaster.cpp) + job order / map broadcast of mpi_skel::run
-static std::map<pMPI::JobId, pMPI::WorkerId> run_noboss(const boost::mpi::communicator& comm, std::vector<Wrap>& parts)
+// root_last: the master-only rank is the LAST rank of the communicator instead of rank 0 (the interface takes any rank as the boss)
+static std::map<pMPI::JobId, pMPI::WorkerId> run_noboss(const boost::mpi::communicator& comm, std::vector<Wrap>& parts, bool root_last)
 {
-    const int ROOT = 0;
+    const int ROOT = root_last ? comm.size() - 1 : 0;
     int rank = comm.rank();
     comm.barrier();
     boost::scoped_ptr<pMPI::MPIMaster> master;
@@ -197,7 +199,7 @@ int main(int argc, char* argv[])
                         skel.parts = parts;
                         m = skel.run(comm, false);
                     } else {
-                        m = run_noboss(comm, parts);
+                        m = run_noboss(comm, parts, mode == "nobossL");
                     }
                     g_phase = 2;
                     std::string s;
